@@ -27,6 +27,28 @@ def sample(run, items, n):
     return keep + run.rng.sample(rest, min(len(rest), n - len(keep)))
 
 
+# ---------------------------------------------------------------- special files (outside the Coq world model)
+SPECIAL_DESTS = {
+    "fifo": [dict(t="p", p="d")],
+    "link_fifo": [dict(t="p", p="tp"), dict(t="l", p="d", to="tp")],
+}
+
+
+def special_cases():
+    """`file` tasks on a path that exists but is neither file, directory nor link (a named pipe), directly or behind a
+    symlink.  Fs.v has no such node: these cases are judged by the property text on the implementation alone
+    (copy/template onto a FIFO are excluded: opening it for reading blocks, like any reader of a pipe)"""
+    for dn, nodes in SPECIAL_DESTS.items():
+        for st in S.FILE_STATES:
+            for m in (None, "0600", "0644"):
+                yield nodes, dict(kind="file", path="d", state=st, mode=m)
+
+
+def run_special(cases, stamps=True):
+    icases = [S.impl_case(nodes, tasks, chk, stamps) for nodes, tasks, chk in cases]
+    return C.run_harness("state", icases, prepare=S.prep, per_case_timeout=10)
+
+
 # ---------------------------------------------------------------- pacman cases
 PKGS = ["a", "b", "c"]
 
@@ -237,6 +259,16 @@ def c03(run, replay=None):
                           dict(desc, observed=dict(status=ir["status"], touched=ir["touched"])))
         if S.status_of(ir["status"]) == "changed":
             nontrivial.add(json.dumps(desc, sort_keys=True))
+    # special files: check mode must leave them alone too
+    sp = [(nodes, [t], chk) for nodes, t in special_cases() for chk in ("global", "task")]
+    for (nodes, ts, chk), io in zip(sp, run_special(sp)):
+        if io.get("crash"):
+            run.violation("check-mode file task on a named pipe: the harness run crashed or hung", dict(world=nodes, task=ts[0], check=chk, observed=io))
+            continue
+        ir = io["results"][0]
+        if ir["touched"] or io["first"] != io["final"]:
+            run.violation("check-mode task modified the managed tree (special file): touched %r, status %s" % (ir["touched"], ir["status"]),
+                          dict(world=nodes, task=ts[0], check=chk, observed=dict(status=ir["status"], touched=ir["touched"])))
     # pacman
     pc = []
     dbs = list(pacman_dbs())
@@ -533,6 +565,31 @@ def c06(run, replay=None):
             else:
                 run.violation("predict: check mode reported ok but the real run changed the system (real status %s)" % sr,
                               dict(desc, observed=dict(check=sc, real=sr, final=rr["impl"]["final"])))
+        # check mode reports a status but the real run FAILS: the prediction is wrong as well.  Known (K28) exactly
+        # where the mirror of the pinned code says the same (missing parent directory, directory onto a dangling link)
+        if (sc in ("ok", "changed")) != (sr in ("ok", "changed")):
+            def mstat(r):
+                return None if isinstance(r["model"], str) else r["model"][0][1][0]
+            if sc in ("ok", "changed") and mstat(rc) == sc and mstat(rr) == sr:
+                run.known("K28-check-misses-real-failure", "")
+            else:
+                run.violation("predict: check mode reported %s, the real run reported %s" % (sc, sr), dict(desc, observed=dict(check=sc, real=sr)))
+    # special files (no Coq model): the two statuses - including failure - must be equal
+    sp = []
+    for nodes, t in special_cases():
+        sp.append((nodes, [t], "task"))
+        sp.append((nodes, [t], "none"))
+    spo = run_special(sp, stamps=False)
+    for i in range(0, len(sp), 2):
+        a, b = spo[i], spo[i + 1]
+        desc = dict(world=sp[i][0], task=sp[i][1][0], check="check-vs-real")
+        if a.get("crash") or b.get("crash"):
+            run.violation("file task on a named pipe: the harness run crashed or hung", dict(desc, observed=dict(check=a, real=b)))
+            continue
+        sc, sr = S.status_of(a["results"][0]["status"]), S.status_of(b["results"][0]["status"])
+        dist["special:%s/%s" % (sc, sr)] = dist.get("special:%s/%s" % (sc, sr), 0) + 1
+        if sc != sr:
+            run.violation("predict (special file): check mode reported %s, the real run reported %s" % (sc, sr), dict(desc, observed=dict(check=a["results"][0]["status"], real=b["results"][0]["status"])))
     allp = []
     for db in pacman_dbs():
         for p in pacman_params(tier):
